@@ -21,7 +21,7 @@ ASSUMPTIONS = ["asyncio timer order as on the virtual clock"]
 def scripts(env):
     cfg = msglayer.default_cfg()
     out = [c["script"] for _, c in load_corpus("C10") if "script" in c]
-    out += G.c10_table(cfg)
+    out += G.c10_table(cfg) + G.c10_shared_response(cfg)
     out += [G.c10_random(env.rng, cfg) for _ in range(env.scale(100, 4000))]
     return out
 
